@@ -44,7 +44,7 @@ def enc_progs(progs):
 class LockRun:
     """one run of the real RWLockWrite under the controlled scheduler"""
 
-    def __init__(self, progs, step_timeout=20.0):
+    def __init__(self, progs, step_timeout=30.0):
         import casbin.util.rwlock as rwmod
         self.progs = progs
         with sched.patched(rwmod):
@@ -114,10 +114,6 @@ class LockRun:
         return res
 
 
-def run_once_for(progs):
-    return lambda choose: LockRun(progs).run(choose)
-
-
 def events_of(res):
     """one event per step, from the observed phases: [tid, kind, 0 blocked | 1 entered | 2 exited]"""
     ev = []
@@ -162,20 +158,21 @@ class Monitor:
 
     def __init__(self):
         self.in_r, self.in_w, self.wait_w, self.wait_r = [], [], [], {}
-        self.first = [None, None, None]     # exclusion, strong preference, preference as worded
+        self.first = [None, None, None, None]   # exclusion, strong preference, preference as worded, readers share
         self.n = 0
 
     def feed(self, ev):
         t, k, w = ev
-        bad = [False, False, False]
+        bad = [False, False, False, False]
         if (k, w) == (0, 0):
+            bad[3] = not (self.in_w or self.wait_w)     # a reader blocks only because of a writer
             self.wait_r.setdefault(t, list(self.wait_w))
         elif (k, w) == (1, 0):
             if t not in self.wait_w:
                 self.wait_w.append(t)
         elif (k, w) == (0, 1):
             earlier = self.wait_r.pop(t) if t in self.wait_r else list(self.wait_w)
-            bad = [bool(self.in_w), bool(self.wait_w), bool(earlier)]
+            bad = [bool(self.in_w), bool(self.wait_w), bool(earlier), False]
             self.in_r.insert(0, t)
         elif (k, w) == (1, 1):
             bad[0] = bool(self.in_w or self.in_r)
@@ -186,7 +183,7 @@ class Monitor:
             self.in_r = [x for x in self.in_r if x != t]
         elif (k, w) == (1, 2):
             self.in_w = [x for x in self.in_w if x != t]
-        for i in range(3):
+        for i in range(4):
             if bad[i] and self.first[i] is None:
                 self.first[i] = self.n
         self.n += 1
@@ -250,6 +247,8 @@ class Judge:
         self.first_disagreement = None
         self.abstract_diffs = 0
         self.n_disagree = 0
+        self.abort = False
+        self.n_sampled = 0
 
     def add(self, res, skip=0, abstract=False):
         """res: RunResult of LockRun.run; skip: number of leading steps already compared in a parent run"""
@@ -260,6 +259,8 @@ class Judge:
         self.n_blocked += blocked
         chk.count((tuple(progs), tuple(schedule)) if (blocked and len(progs) > 1) else None)
         case = dict(progs=progs, schedule=schedule, events=describe_events(res.events), status=res.status)
+        if res.status == "hang":
+            self.abort = True      # a worker may still be spinning: stop driving the real lock altogether
         if res.status in ("error", "hang", "bad-choice"):
             self.fail("acquire/release raised or did not return" if res.status != "bad-choice" else "harness: bad choice",
                       case, dict(status=res.status, errors=res.errors), "every acquire/release returns normally")
@@ -274,7 +275,9 @@ class Judge:
                           "a writer inside is alone" if v[0] == "exclusion" else "a sleeper's wait condition holds")
                 if v[0] == "exclusion":
                     break
-        if self.n_runs % 2500 == 1:
+        if blocked and len(progs) >= 3 and (self.n_sampled < 2 or (len(progs) >= 4 and self.n_sampled < 4)) \
+                and res.status == "ok":
+            self.n_sampled += 1
             chk.sample(dict(case=case, final_state=res.obs[-1] if res.obs else None))
         self.pending.append((res, skip, abstract, case))
         if len(self.pending) >= 4000:
@@ -326,8 +329,8 @@ class Judge:
                     chk.disagreements.append(dict(case=dict(progs=case["progs"], schedule=case["schedule"]),
                                                   where="(further disagreement)"))
             if len(self.vm_reqs) < 400 and (self.n_runs + i) % 37 == 0:
-                self.vm_reqs.append(reqs[i])
-                self.vm_reps.append(dec(lines[i]))
+                self.vm_reqs += [reqs[i], reqs[i + 1]]
+                self.vm_reps += [dec(lines[i]), dec(lines[i + 1])]
             spec = dec(lines[i + 1])
             if spec == [998]:
                 spec = py_spec_trace(res.events)
@@ -348,7 +351,8 @@ class Judge:
 
     def judge_trace(self, spec, res, case):
         names = ("exclusion (event trace)", "strong writer preference",
-                 "writer preference (a reader that arrived after a writer registered as waiting entered before it)")
+                 "writer preference (a reader that arrived after a writer registered as waiting entered before it)",
+                 "readers do not share (a reader blocked although no writer is inside or registered)")
         for k, name in enumerate(names):
             if spec[k]:
                 n = spec[k][0]
@@ -374,7 +378,11 @@ class Judge:
 # ------------------------------------------------------------------ exploration of the real lock
 def explore_impl(chk, judge, mix_list, pruned, deadline, stats, label, abstract=False):
     """enumerate schedules of every mix in mix_list on the real lock; pruned = cut at already seen states"""
+    t_start = time.time()
     for progs in mix_list:
+        if judge.abort:
+            stats.setdefault("skipped_" + label, []).append("|".join(progs))
+            continue
         if time.time() > deadline:
             stats.setdefault("skipped_" + label, []).append("|".join(progs))
             continue
@@ -393,8 +401,9 @@ def explore_impl(chk, judge, mix_list, pruned, deadline, stats, label, abstract=
             # steps shared with the parent run were compared there: the new part starts at the last forced choice
             skip = res.forced - 1 if getattr(res, "forced", 0) > 0 else 0
             judge.add(res, skip=skip, abstract=abstract)
+            return not judge.abort
 
-        st = explore_with_forced(run_once_k, key_k if pruned else None, deadline, on_run)
+        st = sched.explore(run_once_k, key=key_k if pruned else None, deadline=deadline, on_run=on_run)
         d = stats.setdefault(label, dict(mixes=0, runs=0, steps=0, states=0, complete=True, by_status={}))
         d["mixes"] += 1
         d["runs"] += st.runs
@@ -406,40 +415,21 @@ def explore_impl(chk, judge, mix_list, pruned, deadline, stats, label, abstract=
         if not st.complete:
             stats.setdefault("incomplete_" + label, []).append("|".join(progs))
     judge.flush()
+    if label in stats:
+        stats[label]["wall_s"] = round(time.time() - t_start, 1)
 
 
-def explore_with_forced(run_once, key, deadline, on_run):
-    """sched.explore, additionally telling on_run how many leading choices of the run were forced (prefix)"""
-    st = sched.ExploreStats()
-    visited = set()
-    stack = [[]]
-    while stack:
-        if time.time() > deadline:
-            st.complete = False
+def readers_share_probe(chk, judge, stats):
+    """'any number of readers may be inside together' (C16_readers_share / C16_reader_admitted) on the real lock:
+    n readers run their acquire one after the other, nobody releases: all n must be inside"""
+    sizes = (2, 3, 4, 8, 16)
+    for n in sizes:
+        if judge.abort:
             break
-        prefix = stack.pop()
-
-        def choose(ctl, en, prefix=prefix):
-            j = len(ctl.schedule)
-            if j < len(prefix):
-                return prefix[j]
-            if key is not None:
-                k = key(ctl)
-                if k in visited:
-                    return None
-                visited.add(k)
-            for alt in en[1:]:
-                stack.append(ctl.schedule + [alt])
-            return en[0]
-
-        res = run_once(choose)
-        res.forced = len(prefix)
-        st.runs += 1
-        st.steps += len(res.schedule)
-        st.by_status[res.status] = st.by_status.get(res.status, 0) + 1
-        on_run(res)
-    st.states = len(visited)
-    return st
+        progs = ("r",) * n
+        res = LockRun(progs).run(sched.follow(list(range(n)), then=lambda ctl, en: None))
+        judge.add(res)
+    stats["readers_share_probe"] = dict(sizes=list(sizes))
 
 
 def random_runs(chk, judge, nthreads, n, deadline, stats, label):
@@ -447,7 +437,7 @@ def random_runs(chk, judge, nthreads, n, deadline, stats, label):
     rng = chk.rng
     done = 0
     for _ in range(n):
-        if time.time() > deadline:
+        if time.time() > deadline or judge.abort:
             break
         progs = tuple(sorted(rng.choice(PROGRAMS) for _ in range(nthreads)))
         res = LockRun(progs).run(lambda ctl, en: en[rng.randrange(len(en))])
@@ -535,12 +525,16 @@ def search_and_replay(chk, judge, mix_list, deadline, stats, label):
     on the implementation's own trace, so only a violation the implementation really shows is reported)"""
     if chk.oracle is None:
         return
+    t_start = time.time()
     st, viol = model_bfs(chk, mix_list, deadline)
+    st["wall_s"] = round(time.time() - t_start, 1)
     stats[label] = st
     st["model_violations"] = len(viol)
     prio = {"exclusion": 0, "deadlock": 0, "writer preference": 0}
     viol.sort(key=lambda v: (prio.get(v[0], 1), len(v[1]), sum(len(p) for p in v[1]), len(v[2])))
     for what, progs, schedule in viol[:40]:
+        if judge.abort:
+            break
         res = replay_on_impl(progs, schedule)
         judge.add(res)
     judge.flush()
@@ -582,9 +576,21 @@ def run(chk, tier, t_budget, escalate=False):
     t0 = time.time()
     deadline = t0 + t_budget
     m1, m2, m3, m4 = mixes(1), mixes(2), mixes(3), mixes(4)
+    rounds = lambda m: sum(len(p) for p in m)
     one_round = lambda ms: [m for m in ms if all(len(p) == 1 for p in m)]
-    with sched.pinned_cpu():
-        if not escalate:
+    if escalate:
+        # the proof / translator / correspondence is broken and the quick strata found no failing input:
+        # search the model first (complete for <= 4 threads in about a minute), replay what it finds ...
+        if chk.oracle is not None:
+            search_and_replay(chk, judge, m1 + m2 + m3 + m4, t0 + t_budget * 0.6, stats, "escalated_model_bfs_le4threads")
+        judge.finish()
+        if not chk.spec_failures:
+            # ... then cover as many 4-thread states of the real lock as the remaining time allows
+            with sched.pinned_cpu():
+                explore_impl(chk, judge, m4, True, deadline, stats, "escalated_statecover_4threads")
+    else:
+        with sched.pinned_cpu():
+            readers_share_probe(chk, judge, stats)
             # A: EVERY interleaving of the small mixes
             explore_impl(chk, judge, m1 + m2 + one_round(m3), False, deadline, stats, "full_le2threads_and_3x1")
             # B: every reachable state and transition of all mixes of 3 threads x <= 2 rounds
@@ -592,24 +598,25 @@ def run(chk, tier, t_budget, escalate=False):
             if tier == "thorough":
                 explore_impl(chk, judge, one_round(m4), False, t0 + t_budget * 0.35, stats, "full_4x1")
                 explore_impl(chk, judge, m4, True, t0 + t_budget * 0.75, stats, "statecover_4threads", abstract=True)
-                explore_impl(chk, judge, [m for m in m3 if m not in one_round(m3)], False, deadline, stats,
+                explore_impl(chk, judge, [m for m in m3 if rounds(m) > 3], False, deadline, stats,
                              "full_3threads_2rounds")
             else:
                 explore_impl(chk, judge, one_round(m4), True, deadline, stats, "statecover_4x1", abstract=True)
+                explore_impl(chk, judge, [m for m in m3 if rounds(m) == 4], False, t0 + t_budget * 0.8, stats,
+                             "full_3threads_4rounds")
                 random_runs(chk, judge, 4, 1500, deadline, stats, "random_4threads")
-        else:
-            explore_impl(chk, judge, m4, True, deadline, stats, "escalated_statecover_4threads")
-    # C: the model itself, searched breadth-first (always: it is the evidence that the search works, and the
-    #    source of replays when the proof is broken)
-    if chk.oracle is not None:
-        if tier == "thorough" or escalate:
-            search_and_replay(chk, judge, m1 + m2 + m3 + m4, time.time() + max(60, t_budget * 0.5), stats, "model_bfs_le4threads")
-        else:
-            search_and_replay(chk, judge, m1 + m2 + m3 + one_round(m4), time.time() + 40, stats, "model_bfs_le3threads_and_4x1")
+        # C: the model itself, searched breadth-first (always: it is the evidence that the search works)
+        if chk.oracle is not None:
+            if tier == "thorough":
+                search_and_replay(chk, judge, m1 + m2 + m3 + m4, time.time() + 300, stats, "model_bfs_le4threads")
+            else:
+                search_and_replay(chk, judge, m1 + m2 + m3 + one_round(m4), time.time() + 40, stats,
+                                  "model_bfs_le3threads_and_4x1")
     judge.finish()
     chk.extra["runs_on_real_lock"] = chk.extra.get("runs_on_real_lock", 0) + judge.n_runs
     chk.extra["runs_with_contention"] = chk.extra.get("runs_with_contention", 0) + judge.n_blocked
     chk.extra["abstract_system_differs_on_runs"] = judge.abstract_diffs
+    chk.extra["further_disagreeing_runs"] = chk.extra.get("further_disagreeing_runs", 0) + judge.n_disagree
     chk.exhaustive = all(v.get("complete", True) for v in stats.values() if isinstance(v, dict)) \
         and not any(k.startswith(("skipped_", "incomplete_")) for k in stats)
     if judge.vm_reqs and not escalate:
@@ -626,9 +633,12 @@ def main():
     chk.rule = ("a case = (mix, schedule): a multiset of <= 4 threads, each doing one or two acquire/release rounds "
                 "(programs r, w, rr, rw, wr, ww through gen_rlock()/gen_wlock()), and a schedule = the thread chosen "
                 "at each mutex hand-over of the REAL RWLockWrite under harness/sched.py. Strata: every interleaving "
-                "of all mixes of <= 2 threads and of 3 threads x 1 round; state-covering enumeration (every reachable "
-                "state and transition, runs cut at already-seen states) of all mixes of 3 threads (quick) / 4 threads "
-                "(thorough); seeded random schedules of 4-thread mixes; breadth-first search of the extracted model. "
+                "of all mixes of <= 2 threads, of 3 threads x 1 round and of 3 threads with 4 rounds in total (thorough: "
+                "4 threads x 1 round, and 3 threads x 2 rounds as far as the time budget goes); state-covering "
+                "enumeration (every reachable state and transition, runs cut at already-seen states, the state including "
+                "the arrival history that the worded writer preference depends on) of all mixes of 3 threads (quick) / "
+                "4 threads (thorough); seeded random schedules of 4-thread mixes; n readers entering together for "
+                "n up to 16; breadth-first search of the extracted model (<= 3 threads quick, <= 4 thorough). "
                 "A case is non-trivial when >= 2 threads run and at least one acquire blocked in wait(); distinct by "
                 "(mix, schedule)")
     chk.assumptions = [
@@ -650,8 +660,8 @@ def main():
     else:
         run(chk, "quick", 75)
         if chk.broken() and not chk.spec_failures:
-            chk.notes.append("escalated: 4-thread state cover on the real lock + model search <= 4 threads")
-            run(chk, "quick", 90, escalate=True)
+            chk.notes.append("escalated: model search <= 4 threads + 4-thread state cover on the real lock")
+            run(chk, "quick", 110, escalate=True)
     if chk.notes:
         chk.extra["notes"] = chk.notes
     chk.finish()
